@@ -30,4 +30,4 @@ def run(ctx):
         "an identifier's declaration is identified by the identifier whose Defs entry the object is (not by Object.Pos, which the known findings show to be unreliable)",
         "identifiers the compiler synthesizes (no position) are not subject to the Uses invariant",
     ]
-    common.standard(ctx, "GopModel.Props.C12", "c12", 60, 3000, RULE, driver="drv_compb")
+    common.standard(ctx, "GopModel.Props.C12", "c12", 48, 1500, RULE, driver="drv_compb")
